@@ -33,10 +33,15 @@ def run(tier, seed):
     if B["errors"] or not B["complete"]:
         raise MachineryError("behaviour generation (B) failed: %s" % B["errors"][:3])
     behaviours = [(h, len(h)) for h in B["tr"]]
+    # the pre-loaded prefixes prov/xsd as ordinary members of the space
+    B2 = tlcrun.run_mc("C03/B2", "MC_C03", cfg(dB, ["prov", "ex"], "all"), workers=1, timeout=3000, heap="8g")
+    if B2["errors"] or not B2["complete"]:
+        raise MachineryError("behaviour generation (B2) failed: %s" % B2["errors"][:3])
+    behaviours += [(h, len(h)) for h in B2["tr"]]
     # seeded random walks of the same model, longer and not shortest: checked at every step
     dS = 10 if quick else 14
     nS = 300 if quick else 3000
-    pfxS = ["ex", "dn", "", "ex_1", "foo"]
+    pfxS = ["ex", "dn", "", "ex_1", "foo", "prov"]
     S = tlcrun.run_mc("C03/S", "MC_C03", cfg(dS, pfxS, "walk", walk=dS), workers=1, timeout=1200,
                       simulate="num=%d" % nS, seed=seed + 1, heap="4g")
     walks = tlcrun.pick_walks(S["tr"], seed)
